@@ -22,3 +22,114 @@ CHECKS = {
                  "system libraries are not redirected; libblkid only reads).  Images <= 32 MiB, 1k-4k blocks."),
     },
 }
+
+SIM = "deterministic simulation with fault injection: "
+
+CHECKS.update({
+    "C01": {
+        "level": "exploration",
+        "technique": SIM + "seeded worlds, crashed writers (power-loss subsets, torn writes) and structure-addressed media faults; bounded liveness: one repair run after faults stop must converge",
+        "text": ("Seeded populated filesystems are driven into damaged states inside the simulation: a writer (debugfs script, e2fsck -D, "
+                 "tune2fs, resize2fs) is crashed at a seeded device event and the disk is rebuilt under the power-loss model (subset of "
+                 "in-flight writes kept, torn sectors), or 1-4 at-rest media faults are placed by structure (superblock, descriptor, "
+                 "bitmap, inode, extent/indirect, directory, htree, xattr fields; sectors; with or without re-sealed checksums).  Then "
+                 "e2fsck -fy; if its status claims success, e2fsck -fn must exit 0 with an empty problem log.  Genuine non-convergent "
+                 "classes of the pinned tree are listed in KNOWN_FINDINGS.jsonl by class key; every other class is a violation.  Sampling."),
+        "note": "Trusted: shim event log and crash-state reconstruction; the problem log (E2FSCK_CONFIG problem_log_filename) as the witness of 'reports no problem'. Images <= 32 MiB.",
+    },
+    "C02": {
+        "level": "exploration",
+        "technique": SIM + "fault-produced images judged by e2fsck -fn and by an independent reader/checker (refext4) written from the on-disk format",
+        "text": ("On images produced by the simulator (clean worlds, crashed writers, structure-addressed faults with re-sealed checksums -- "
+                 "the kind a symmetric library bug would write) the implication 'e2fsck -fn exits 0 => the independent checker finds no "
+                 "violated invariant' is evaluated; the checker covers block ranges/ownership, bitmaps and group counts, link counts and "
+                 "reachability, extent trees, directory blocks, htree, and every metadata checksum, and is deliberately no stricter.  Sampling."),
+        "note": "Trusted: ref/refext4.py (own parser, own CRCs, calibrated to zero complaints on every clean world and every clean image of /repo/tests).",
+    },
+    "C03": {
+        "level": "exploration",
+        "technique": SIM + "independent JBD2 log writer crashed at any block (missing/stale/torn suffix, wrap, every tag format), real recovery by both front-ends compared with an executable reference model",
+        "text": ("An independent model writer lays down 1-12 transactions (data, escape, revoke, several descriptor blocks, wrap, 32/64-bit x "
+                 "none/v1/v2/v3 checksums x async commit) and stops like a crashed kernel would (commit missing, blocks of the last "
+                 "transaction lost or torn, stale laps behind the head); separate configuration: bit rot in the committed region.  Replay by "
+                 "e2fsck -E journal_only and by debugfs jr must leave every block equal to the reference model's expectation, every other "
+                 "block untouched, the journal empty, needs_recovery clear, and both front-ends byte-identical outside time fields.  Sampling."),
+        "note": "Trusted: ref/jbd2model.py (writer and expected_blocks) -- shares no code with recovery.c. Block-image journals only (no fast commit).",
+    },
+    "C04": {
+        "level": "fault_enumeration",
+        "technique": SIM + "every device event of the real recovery process is a crash point (kill model exhaustive; power-loss model with sampled subsets of unflushed writes, torn writes, nested crashes), re-run and compare with the reference model",
+        "text": ("For each sampled journal world the recovery process (e2fsck or debugfs, internal or external journal) is interrupted after "
+                 "every prefix of its device events; under the power model the writes after the last completed fsync are kept in seeded "
+                 "subsets (none/all/drop-one/keep-one/keep-last/random, optionally torn).  On every crash state the durability-ordering "
+                 "invariant is evaluated (journal marked empty or needs_recovery clear => every expected block already durable) and recovery "
+                 "is re-run and compared with the uninterrupted result.  Exhaustive over crash points per run, sampled over journals and subsets."),
+        "note": "Trusted: simdisk barrier model (a write is durable once an fsync on that device completed; no reordering across a barrier). One listed finding: the superblock word-series rewrite is not atomic.",
+    },
+    "C05": {
+        "level": "exploration",
+        "technique": SIM + "repairing e2fsck modes on workload-built filesystems, healthy or with faults confined to allocation summaries and checksum fields; tree digest by the independent reader before/after",
+        "text": ("Every repairing mode (-fp, -fy, -fyD, -fy -E bmap2extent, -fy -E fixes_only) runs on seeded populated filesystems (large and "
+                 "indexed directories, all mapping types, xattr placements), healthy or damaged only in bitmaps, free/used counts, descriptor "
+                 "flags, itable_unused and checksum fields.  Exit status must be 0/1, the independent reader's tree digest (path, type, "
+                 "content hash, size, mode, owner, links, target, xattrs) must be unchanged, and after damage e2fsck -fn must be clean.  Sampling."),
+        "note": "Trusted: ref/refext4.py tree_digest(); lost+found and directory sizes are outside the digest.",
+    },
+    "C06": {
+        "level": "exploration",
+        "technique": SIM + "every tool and mode under ASan/UBSan-bounds on fault-produced images, undo files and qcow2 files, with a simulated-step budget as the hang oracle",
+        "text": ("e2fsck -n/-p/-y, debugfs read-only batteries, dumpe2fs, tune2fs -l, resize2fs -P, e2image, e2undo, e2freefrag run on the "
+                 "simulator's fault images (structure-addressed, raw sector, truncated device), on damaged undo files and qcow2 images.  "
+                 "Oracle: no sanitizer report, no fatal signal, termination within the device-event budget and CPU limit, documented exit "
+                 "status.  Findings are keyed by (tool+mode, error kind, innermost /repo frame).  Sampling of an unbounded input space."),
+        "note": "Trusted: ASan/UBSan(bounds) runtimes; allocator_may_return_null so that absurd sizes read from the image take the ENOMEM path.",
+    },
+    "C07": {
+        "level": "exploration",
+        "technique": SIM + "mke2fs option swarm on a simulated device (zero/poison content, write monitor for -n); reproducibility decided by re-running under a different simulated clock and random stream",
+        "text": ("Seeded mke2fs command lines (block/cluster/inode size, -i/-N, feature subsets, journal, -g/-G, -E resize/stride/offset/"
+                 "num_backup_sb/packed_meta_blocks/root_owner, -m, -d tree, boundary sizes).  Accepted => e2fsck -fn clean, independent checker "
+                 "clean, requested geometry/features present, backups exactly where the format rule puts them; mke2fs -n issues zero "
+                 "mutating device events; the same command under another clock and PRNG stream yields identical bytes.  Sampling."),
+        "note": "Trusted: simclock/simrand cover every time and randomness source the tools reach through libc; MKE2FS_CONFIG=/dev/null.",
+    },
+    "C09": {
+        "level": "exploration",
+        "technique": SIM + "seeded file-I/O histories through libext2fs on a poisoned simulated device against a byte-array reference model; separate configurations for a full filesystem and for injected EIO/short transfers",
+        "text": ("A harness driver executes seeded histories of write/read/set_size/punch/fallocate/flush/reopen on files of each mapping type "
+                 "(extent, block-map, bigalloc, inline) with offsets biased to block, cluster, indirect-level and extent-leaf boundaries.  "
+                 "Every read must equal the model (data, zeros in holes and uninit ranges, exact length), other files stay untouched, after "
+                 "close the independent reader sees the same bytes and e2fsck -fn is clean; under ENOSPC/EIO only the documented relaxations apply.  Sampling."),
+        "note": "Trusted: filemodel in checks/C09.py; FORCE_INIT without ZERO_BLOCKS ranges are 'unknown' in the model by design.",
+    },
+    "C12": {
+        "level": "exploration",
+        "technique": SIM + "chains of recording tools on a simulated device and undo file; the last recorder killed at a seeded device event, single-bit rot of the undo file by region, wrong device/order, write monitor for refusals and -n",
+        "text": ("Chains of 1-4 runs of mke2fs/tune2fs/resize2fs/e2fsck/debugfs -w/e2undo with -z (own files or one appended file, regular file or "
+                 "block-device personality), then e2undo in reverse: the device must equal the recorded pre-image byte for byte over its original "
+                 "length.  Fault configurations: recorder killed at a seeded event (every block an independent parse finds recorded must be "
+                 "restored, a refusal must not write, an unfinished file must mark the fs); one flipped bit per undo-file region (refuse with "
+                 "zero mutating events, or exact result); wrong filesystem / wrong order (refuse without writing); -n (zero mutating events).  Sampling."),
+        "note": "Trusted: independent undo-file parser in checks/C12.py; kill model = bytes handed to write(2) survive, tool caches do not.",
+    },
+    "C17": {
+        "level": "exploration",
+        "technique": SIM + "io_channel histories on the simulated device against a block-device model with injected EIO/short/ENOSPC/fsync failures; threaded bitmap loading under the seeded scheduler compared with single-threaded loading, TSan flavour for the race clause",
+        "text": ("h_iochan executes seeded histories of read/write (block and byte granular, 1-12 blocks), write_byte, zeroout, discard, readahead, "
+                 "set_blksize, flush, reopen on channel configurations {cached, cache=off, write-through, bounce, offset, undo-wrapped}; every read "
+                 "equals the model, after flush/close the backing file equals the model and a barrier follows the last write, an injected write "
+                 "failure is reported before success is claimed.  h_rwbitmaps loads bitmaps with 1..16 simulated CPUs under seeded interleavings; "
+                 "bitmaps, tail flags and return code must equal the single-thread result.  Sampling of schedules and histories."),
+        "note": "Trusted: blkdevmodel in checks/C17.py; simsched serialises real pthreads at I/O and pthread calls. The race clause needs the tsan flavour (clang); if it cannot be built the evidence says so.",
+    },
+    "C20": {
+        "level": "exploration",
+        "technique": SIM + "targeted media fault on the primary superblock and descriptors after each geometry-changing tool; recovery through every backup location compared by tree digest",
+        "text": ("After mke2fs and optionally resize2fs, tune2fs or a repairing e2fsck on a populated filesystem: the groups holding a superblock "
+                 "copy must equal the format rule computed by the independent reader; each copy must agree with the primary in counts, "
+                 "feature words, UUID and geometry; with the primary superblock and all primary descriptor blocks zeroed or overwritten with "
+                 "noise, e2fsck -fy -b <loc> -B <bs> for each backup (and plain e2fsck with the default group size) must end without "
+                 "uncorrected/operational bits, e2fsck -fn must then be clean and the tree digest unchanged.  Sampling."),
+        "note": "Trusted: ref/refext4.py backup_groups()/fixed_metadata()/tree_digest().",
+    },
+})
